@@ -33,7 +33,7 @@ class C11Disk(Scenario):
                                   (2, "sim_sq")]),
             "hseed": rng.below(1 << 16), "squeeze": rng.between(1, 3),
             "dir": rng.choice(seams.Scratch.DIRS), "cwd": rng.choice(seams.Scratch.DIRS),
-            "style": rng.choice(("abs", "rel", "path", "relpath")),
+            "style": rng.choice(("abs", "rel", "path", "relpath", "dirlink", "home")),
             "universe": rng.choice((4, 8, 16, 40)),
             "fault_free": rng.chance(1, 6),
             "real_kill_every": 4 if tier == "thorough" else 25,
@@ -53,7 +53,7 @@ class C11Disk(Scenario):
         if self.f is None:  # handle closed
             r = rng.below(10)
             if r < 7 or ff:
-                return {"op": "reopen", "style": rng.choice(("abs", "rel", "path", "relpath")) if not ff else "abs"}
+                return {"op": "reopen", "style": rng.choice(("abs", "rel", "path", "relpath", "dirlink", "home")) if not ff else "abs"}
             return {"op": "chdir", "dir": rng.choice(seams.Scratch.DIRS)}
         r = rng.below(100)
         k = rng.below(cfg["universe"])
@@ -74,7 +74,7 @@ class C11Disk(Scenario):
             return {"op": "chdir", "dir": rng.choice(seams.Scratch.DIRS)}
         if r < 91:
             return {"op": "export", "dir": rng.choice(seams.Scratch.DIRS),
-                    "style": rng.choice(("abs", "rel", "path", "relpath"))}
+                    "style": rng.choice(("abs", "rel", "path", "relpath", "dirlink", "home"))}
         if r < 93:
             return {"op": "clear"}
         if r < 96:
